@@ -15,6 +15,7 @@ import (
 	"math"
 	"sort"
 	"strings"
+	"sync/atomic"
 	"testing"
 	"time"
 
@@ -585,10 +586,19 @@ func genCopies(r *vlib.R, ext []int, yield func(Case) bool) bool {
 			seconds = append(seconds, second{ci, st})
 		}
 	}
+	// next to a second replica, quick: pairs over the base alphabet + the finest cut + the 2 nested covers (23) instead of all 38
+	withSecond := map[int]bool{}
+	for _, ci := range vlib.Pick(r, append(append([]int{}, ext[:baseCuts]...), pickCuts([][]ival{
+		{{0, 0}, {1, 1}, {2, 2}, {3, 3}, {4, 4}, {5, 5}}, {{0, 3}, {1, 2}, {4, 5}}, {{0, 4}, {1, 1}, {3, 3}, {5, 5}}})...), ext) {
+		withSecond[ci] = true
+	}
 	for _, c0 := range ext {
 		for _, c1 := range ext {
 			if !emit(shape{cuts: []int{c0}, place: []int{0}, copies: []Copy{{0, c1, 1}}, wide: true}) {
 				return false
+			}
+			if !withSecond[c0] || !withSecond[c1] {
+				continue
 			}
 			for _, s2 := range seconds {
 				if !emit(shape{cuts: []int{c0, s2.cut}, place: []int{0, s2.store}, copies: []Copy{{0, c1, 1}}}) {
@@ -629,14 +639,19 @@ func TestCheck(t *testing.T) {
 		"x all surjective placements of replicas on 1..R stores x chunks spread over stores or not x logical series {1, 2 differing before, 2 differing after the replica labels} " +
 		"x replica labels {replica},{r,replica} x stores with/without WithoutReplicaLabels support x series-per-frame / chunk-per-frame " +
 		"x {dedup on identical replicas, dedup on distinct replicas, dedup off} x step {10s; 1s for identical replicas, R<=2} [t, R<=2: x lazy/eager x batch 1/3]; " +
-		"PLUS the same replica served by two stores: every ordered pair of the 38 cuts (store 0, store 1) x {alone; next to a second replica with cut q 1 / t 5 on store q {0, own} / t {0,1,own}} " +
+		"PLUS the same replica served by two stores: every ordered pair of the 38 cuts (store 0, store 1) x {alone; next to a second replica (q: pairs of 23 of the 38 cuts) with cut q 1 / t 5 on store q {0, own} / t {0,1,own}} " +
 		"x logical series x replica labels x support x framing x the three dedup modes (alone: x step 1s [t: x lazy x batch]) [t: the same replica on three stores, all triples of 14 cuts]; " +
 		"non-trivial = distinct dedup-on cases with >= 2 replicas whose chunk cuts differ or overlap, and distinct cases (any dedup mode) where one replica is served by several stores with different cuts " +
 		"(extra counters: cases_same_replica_on_several_stores, cases_dedup_off_nested_chunk_then_newer_chunk)")
 	r.Assume("stores are fakes that behave like a conforming StoreAPI (series sorted by labels, chunks by min time; with WithoutReplicaLabels support they strip the labels and re-sort); " +
 		"raw XOR float chunks; query range = exactly the sample range; penalty dedup; partial response disabled")
 	vlib.ForEach(r, gen(r), func(c Case) { evalCase(r, c) })
+	r.Set("cases_same_replica_on_several_stores", nCopies.Load())
+	r.Set("cases_dedup_off_nested_chunk_then_newer_chunk", nNestedOff.Load())
 }
+
+// counters for the evidence file: cases with Copies; dedup-off cases among them whose merged chunk list has a nested chunk followed by a newer one
+var nCopies, nNestedOff atomic.Int64
 
 func evalCase(r *vlib.R, c Case) {
 	r.Sample(c)
@@ -666,7 +681,7 @@ func evalCase(r *vlib.R, c Case) {
 		}
 	}
 	if len(c.Copies) > 0 {
-		r.Add("cases_same_replica_on_several_stores", 1)
+		nCopies.Add(1)
 		anyMulti, anyNested := false, false
 		for k := range multiStore {
 			nested[k] = c.nestedThenNewer(k)
@@ -677,7 +692,7 @@ func evalCase(r *vlib.R, c Case) {
 			r.Nontrivial(fmt.Sprintf("%+v", c))
 		}
 		if anyNested && !c.Dedup {
-			r.Add("cases_dedup_off_nested_chunk_then_newer_chunk", 1)
+			nNestedOff.Add(1)
 		}
 	}
 	byLset := map[string][]gotSeries{}
